@@ -484,6 +484,22 @@ def _copy_len_ok(ev, f, b, dst, src, lits):
                     op = atom[2] if pol else R._NEG[atom[2]]
                     if op == "Eq" and any(x.op == "param" and x.a[1] == sp.a[1] for x in subterms(atom[3]) | subterms(atom[4])):
                         return ("len-guard", "dominated by the exact-length comparison between the representation and the input")
+    # general: |dst| is a known linear form (a fixed array, vec![0; n], ..) and a dominating comparison pins |src| to it
+    try:
+        dl = B.int_form(T("len", dst))
+        sl = B.int_form(T("len", src))
+        if B.lin_eq(dl, sl):
+            return ("length-eq", "destination and source have the same length form (%s)" % B._show_len(dl))
+        for atom, pol in lits:
+            if atom[0] == "atom" and atom[1] == "cmp":
+                op = atom[2] if pol else R._NEG[atom[2]]
+                if op != "Eq":
+                    continue
+                fa, fb = B.int_form(strip_sites(atom[3])), B.int_form(strip_sites(atom[4]))
+                if (B.lin_eq(fa, sl) and B.lin_eq(fb, dl)) or (B.lin_eq(fb, sl) and B.lin_eq(fa, dl)):
+                    return ("len-guard", "dominated by the comparison |source| == %s = |destination|" % B._show_len(dl))
+    except Exception:
+        pass
     # tiling writes of compute_y
     if d.op == "call" and B.cname(d) in ("IndexMut::index_mut",):
         segs = B.nf(ev, T("mutcall", ("slice::<impl [T]>::copy_from_slice", ()), 0, (dst, src)))
@@ -514,6 +530,13 @@ def _interval_ok(P, f, ev, b, t, ops, lits):
                 return ("interval", "n + min(L, len - n) <= len cannot overflow")
         if all(_is_len_like(x) for x in o):
             return ("interval", "sum of two lengths of live allocations (< isize::MAX each) cannot overflow usize")
+        # counter + small constant: an enumerate index, a loop counter stepped by small constants, or such a value captured
+        # by / handed to a closure - it counts iterations over elements that exist in memory, far below usize::MAX
+        for xi, x in enumerate(o):
+            ci = B._const_int(x)
+            other = ops[1 - xi] if len(ops) == 2 else (o[1] if x is o[0] else o[0])  # raw term: loop variables keep their identity
+            if ci is not None and 0 <= ci <= 4096 and _counter_like(P, f, other, 0):
+                return ("interval", "iteration counter + %d: bounded by the number of elements that were iterated (<= isize::MAX)" % ci)
         # i + 1 for an enumerate index
         for x in o:
             if B._const_int(x) == 1 and any(y.op == "call" and B.cname(y) == "Iterator::enumerate" for y in subterms(o[0] if x is o[1] else o[1])):
@@ -538,6 +561,100 @@ def _interval_ok(P, f, ev, b, t, ops, lits):
         if _is_len_like(o[0]) and any(y.op == "call" and (B.cname(y) == "Uint::peek") for y in subterms(o[1])):
             return ("ok-arm", "Uint::peek(buf) == Some(n) implies n <= buf.len()")
     return None
+
+
+def _counter_like(P, f, t, depth):
+    """Is the usize term an iteration counter: an enumerate index, a loop variable that starts at a small constant and is
+    only ever stepped by small constants, or one of those seen through a closure capture / closure parameter?"""
+    if depth > 3:
+        return False
+    raw = B.peel(t)
+    while raw.op in ("ref", "deref"):
+        raw = raw.a[0]
+    t = B.peel(strip_sites(t))
+    if raw.op == "loop":
+        t = raw
+    if any(y.op == "call" and B.cname(y) == "Iterator::enumerate" for y in subterms(t)) and not any(y.op == "bin" and y.a[0] in ("Mul", "MulWithOverflow", "Shl") for y in subterms(t)):
+        return True
+    if t.op == "field" and t.a[1] == "0" and t.a[0].op == "bin" and t.a[0].a[0] == "AddWithOverflow":
+        # counter + c (checked): still a counter
+        a, b_ = t.a[0].a[1], t.a[0].a[2]
+        ca, cb = B._const_int(a), B._const_int(b_)
+        if cb is not None and 0 <= cb <= 4096:
+            return _counter_like(P, f, a, depth)
+        if ca is not None and 0 <= ca <= 4096:
+            return _counter_like(P, f, b_, depth)
+    if t.op == "loop":
+        init = B._const_int(t.a[2])
+        var = t.a[1]
+        if init is None or not (0 <= init <= 4096) or not isinstance(var, int):
+            return False
+        # every assignment to the variable inside the function is `var (+) small constant` (or the initialisation)
+        for b in f.cfg.reachable:
+            for st in f.blocks[b]["stmts"]:
+                if st["k"] != "assign" or st["place"].get("l") != var or "p" in st["place"]:
+                    continue
+                rv = st["rv"]
+                if "use" in rv:
+                    u = rv["use"]
+                    if isinstance(u, dict) and "const" in u:
+                        continue
+                    pl = (u.get("move") or u.get("copy")) if isinstance(u, dict) else None
+                    if pl and pl.get("p") == [{"f": 0, "n": "0"}] or (pl and isinstance(pl.get("p"), list) and len(pl["p"]) == 1 and isinstance(pl["p"][0], dict) and pl["p"][0].get("f") == 0):
+                        # var = move (_tmp.0) where _tmp = AddWithOverflow(var, c): checked below through _tmp
+                        tmp = pl["l"]
+                        okk = False
+                        for b2 in f.cfg.reachable:
+                            for st2 in f.blocks[b2]["stmts"]:
+                                if st2["k"] == "assign" and st2["place"].get("l") == tmp and "p" not in st2["place"] and st2["rv"].get("bin") in ("AddWithOverflow", "Add"):
+                                    ops_ = [st2["rv"].get("a"), st2["rv"].get("b")]
+                                    cs = [x_["const"].get("int") for x_ in ops_ if isinstance(x_, dict) and isinstance(x_.get("const"), dict) and "int" in x_["const"]]
+                                    if cs and all(0 <= c_ <= 4096 for c_ in cs):
+                                        okk = True
+                        if okk:
+                            continue
+                    return False
+                if rv.get("bin") in ("Add", "AddWithOverflow", "AddUnchecked"):
+                    ops_ = [rv.get("a"), rv.get("b")]
+                    cs = [x_["const"].get("int") for x_ in ops_ if isinstance(x_, dict) and isinstance(x_.get("const"), dict) and "int" in x_["const"]]
+                    if cs and all(0 <= c_ <= 4096 for c_ in cs):
+                        continue
+                return False
+        return True
+    if f.kind == "Closure":
+        pk_ = f.j.get("parent_key") or ""
+        # where the closure value is built: its parent, or the function the parent's body was spliced into
+        cands = [P.fns.get(pk_)] + [g for g in P.fns.values() if pk_ in (g.j.get("desugared") or []) or pk_ in (g.j.get("inlined") or [])]
+        cands = [g for g in cands if g is not None]
+        for par in cands:
+            if _counter_in_parent(P, f, par, t, depth):
+                return True
+        return False
+    return False
+
+
+def _counter_in_parent(P, f, par, t, depth):
+    if True:
+        pev = evaluate(par)
+        # a capture: field i of the environment
+        base = t
+        idx = None
+        if base.op == "field":
+            inner = base.a[0]
+            while inner.op in ("ref", "deref"):
+                inner = inner.a[0]
+            if inner.op == "param" and inner.a[0] == 1 and str(base.a[1]).isdigit():
+                idx = int(base.a[1])
+        for _, ps in sorted(pev.sites.items()):
+            for a in ps.args:
+                pc = B.peel(a)
+                if pc.op == "agg" and pc.a[0][0] == "closure" and pc.a[0][1] == f.key:
+                    if idx is not None and idx < len(pc.a[1]):
+                        return _counter_like(P, par, pc.a[1][idx], depth + 1)
+                    # a parameter component: the closure is mapped over an enumerate
+                    if t.op == "field" and t.a[1] == "0" and B.peel(t.a[0]).op == "param" and B.peel(t.a[0]).a[0] == 2 and ps.args and any(y.op == "call" and B.cname(y) == "Iterator::enumerate" for y in subterms(strip_sites(ps.args[0]))):
+                        return True
+    return False
 
 
 _CUR = {}
